@@ -51,6 +51,15 @@ func (k msgServer) AddFeeToDispute(goCtx context.Context,
 		msg.Amount.Amount = dispute.SlashAmount.Sub(dispute.FeeTotal)
 	}
 
+	// a payer that has paid before keeps one record: the amounts add up (the refund is pro rata to it)
+	payerKey := collections.Join(dispute.DisputeId, sender.Bytes())
+	paidBefore := math.ZeroInt()
+	prevPayerInfo, err := k.Keeper.DisputeFeePayer.Get(ctx, payerKey)
+	if err == nil {
+		paidBefore = prevPayerInfo.Amount
+	} else if !errors.Is(err, collections.ErrNotFound) {
+		return nil, err
+	}
 	// Pay fee
 	if err := k.Keeper.PayDisputeFee(ctx, sender, msg.Amount, msg.PayFromBond, dispute.HashId); err != nil {
 		return nil, err
@@ -61,8 +70,8 @@ func (k msgServer) AddFeeToDispute(goCtx context.Context,
 		msg.Amount.Amount = fee
 	}
 	// dispute fee payer
-	if err := k.Keeper.DisputeFeePayer.Set(ctx, collections.Join(dispute.DisputeId, sender.Bytes()), types.PayerInfo{
-		Amount:   msg.Amount.Amount,
+	if err := k.Keeper.DisputeFeePayer.Set(ctx, payerKey, types.PayerInfo{
+		Amount:   paidBefore.Add(msg.Amount.Amount),
 		FromBond: msg.PayFromBond,
 	}); err != nil {
 		return nil, err
